@@ -6,7 +6,9 @@ threads, the executing thread is stalled until the *other side* has run as far a
 * the I/O thread waits until every worker is idle (the reader has completely handled what it was
   given) - so that the I/O thread continues with a view that has gone stale mid-operation;
 * a worker thread lets the I/O thread run one full loop iteration and waits until it is parked
-  in select() again.
+  in select() again;
+* the thread calling Node.start() (which dials the persistent peers while the I/O thread already runs) is treated
+  like a worker, and the I/O thread also waits for that call to finish.
 
 Every stall is bounded (a thread may hold a lock the other side needs); a stall is only a
 line-boundary preemption, i.e. a schedule the interpreter may produce on its own.  The hot lines
@@ -37,6 +39,9 @@ class Staller:
         self.on = False
         self.codes = []
         self.hot = set()
+        self.loop_body = set()      # first line inside a loop over a shared table
+        self.io_stalled = False
+        self.skip_loops = self.rng.randrange(0, 4)
         self.in_stall = threading.local()
 
     def start(self):
@@ -63,6 +68,8 @@ class Staller:
                             if any(w in text for w in HOT_WORDS) and not text.lstrip().startswith(("#", '"""', "f\"")):
                                 self.hot.add((c, start + i))
                                 self.hot.add((c, start + i + 1))
+                                if text.lstrip().startswith("for "):
+                                    self.loop_body.add((c, start + i + 1))
                                 hit = True
                         if hit:
                             self.codes.append(c)
@@ -87,14 +94,44 @@ class Staller:
         h = self.h
         if h.torn_down or h.node is None:
             return
+        me = threading.current_thread()
+        io = me is getattr(h.node, "_connection_thread", None)
+        if getattr(h, "api_busy", False):
+            # Node.start() is dialling from the caller's thread: the I/O thread is held *inside* a loop over a
+            # shared table until the call has finished; the caller waits until the I/O thread is there
+            if io:
+                if (code, line) not in self.loop_body:
+                    return
+                if self.skip_loops > 0:      # which of the loops is held varies with the seed
+                    self.skip_loops -= 1
+                    return
+                self.stalls["io"] += 1
+                self.stalls["io_in_loop_during_api_call"] = self.stalls.get("io_in_loop_during_api_call", 0) + 1
+                self.io_stalled = True
+                end = time.time() + self.io_wait * 5
+                while time.time() < end and getattr(h, "api_busy", False):
+                    time.sleep(0.0002)
+                self.io_stalled = False
+                return
+            if me.name.startswith("MainThread"):
+                if self.io_stalled:
+                    return
+                with h.cv:
+                    if h.parked:
+                        h.permits += 1
+                        h.parked = False
+                        h.cv.notify_all()
+                end = time.time() + self.worker_wait
+                while time.time() < end and not self.io_stalled and not h.parked:
+                    time.sleep(0.0002)
+                return
         with self.lock:
             go = self.rng.random() < self.q
         if not go:
             return
         self.in_stall.v = True
         try:
-            me = threading.current_thread()
-            if me is getattr(h.node, "_connection_thread", None):
+            if io:
                 self.stalls["io"] += 1
                 end = time.time() + self.io_wait
                 time.sleep(0.0002)
